@@ -94,7 +94,12 @@ class FitInfoFile(object):
                     yield info
         else:
             for info in self._fits:
-                yield info
+                # Yield a copy so that consumers that call e.g. keep() do not
+                # modify the results the caller passed in
+                info_copy = FitInfo()
+                info_copy.__setstate__(info.__getstate__())
+                info_copy.meta = info.meta
+                yield info_copy
 
 
 class FitInfoMeta(object):
